@@ -59,11 +59,13 @@ def make_u(C, N=1, closed=True):
 
 
 def throw_slices(ns):
-    """The real source of RegionGeom.throw cut at the path-length sampling: a function
-    throw_sliced(self, u) made of the statements of the CURRENT source from `u1, u2, u3, u4 = u`
-    up to (not including) `b = (...)`, and from `rvsqrd = ...` to the end (original file name and
-    line numbers preserved). `self.losPathLen` must be preset by the harness. The omitted middle
-    (cubic root selection) is the subject of its own job."""
+    """The real source of RegionGeom.throw with the path-length sampling cut out: a function
+    throw_sliced(self, u) made of the top-level statements of the CURRENT source minus the exclusive backward
+    slice of the stores to `self.losPathLen` -- every statement that only serves to compute the path length
+    (found by def-use analysis on the AST, not by matching source text, so renaming locals, extracting helpers
+    or moving lines does not disturb it).  Original file name and line numbers are preserved.
+    `self.losPathLen` must be preset by the harness.  The omitted statements (cubic root selection) are the
+    subject of their own job.  -> (function, (first omitted line, last omitted line))"""
     import ast
 
     from symnp.core import HarnessError
@@ -79,17 +81,70 @@ def throw_slices(ns):
                     fn = b
     if fn is None:
         raise HarnessError("RegionGeom.throw not found")
+    selfname = fn.args.args[0].arg if fn.args.args else "self"
+    params = {a.arg for a in fn.args.args}
 
-    def idx(marker, start=0):
-        for k in range(start, len(fn.body)):
-            if marker in ast.unparse(fn.body[k]).replace("\n", " "):
-                return k
-        raise HarnessError(f"throw(): statement {marker!r} not found -- the slicing harness must be revisited")
+    def names(stmt):
+        """(defined, used) symbols of a top-level statement; attributes of self are 'self.X'"""
+        d, u = set(), set()
+        for n in ast.walk(stmt):
+            if isinstance(n, ast.Name):
+                (d if isinstance(n.ctx, (ast.Store, ast.Del)) else u).add(n.id)
+            elif isinstance(n, ast.Attribute) and isinstance(n.value, ast.Name) and n.value.id == selfname:
+                (d if isinstance(n.ctx, (ast.Store, ast.Del)) else u).add("self." + n.attr)
+        # a subscript / augmented store into X also reads X and counts as a definition of X
+        for n in ast.walk(stmt):
+            tgt = None
+            if isinstance(n, ast.Assign):
+                tgt = n.targets
+            elif isinstance(n, ast.AugAssign):
+                tgt = [n.target]
+            for t in tgt or []:
+                base = t
+                while isinstance(base, ast.Subscript):
+                    base = base.value
+                if base is not t:
+                    if isinstance(base, ast.Name):
+                        d.add(base.id)
+                        u.add(base.id)
+                    elif isinstance(base, ast.Attribute) and isinstance(base.value, ast.Name) and base.value.id == selfname:
+                        d.add("self." + base.attr)
+                        u.add("self." + base.attr)
+        return d, u
 
-    i_head = idx("u1, u2, u3, u4 = u")
-    i_b = idx("b = ", i_head)
-    i_tail = idx("rvsqrd = self.losPathLen * self.losPathLen", i_b)
-    new = ast.FunctionDef(name="throw_sliced", args=fn.args, body=fn.body[i_head:i_b] + fn.body[i_tail:], decorator_list=[], returns=None, type_comment=None,
+    body = [b for b in fn.body]
+    info = [names(b) for b in body]
+    target = "self.losPathLen"
+    seeds = [k for k, (d, _u) in enumerate(info) if target in d]
+    if not seeds:
+        raise HarnessError("throw(): no statement stores self.losPathLen -- the slicing harness must be revisited")
+    last = max(seeds)
+    sl = set(seeds)
+    need = set()
+    for k in seeds:
+        need |= {x for x in info[k][1] if not x.startswith("self.") and x not in params}
+    for k in range(last - 1, -1, -1):
+        d, u = info[k]
+        if k in sl:
+            continue
+        if {x for x in d if not x.startswith("self.")} & need and not isinstance(body[k], (ast.Expr,)):
+            sl.add(k)
+            need |= {x for x in u if not x.startswith("self.") and x not in params}
+    # exclusivity: a statement of the slice whose definitions are used outside the slice stays
+    changed = True
+    while changed:
+        changed = False
+        for k in sorted(sl):
+            if k in seeds:
+                continue
+            d = info[k][0]
+            used_outside = any((info[j][1] & d) for j in range(k + 1, len(body)) if j not in sl)
+            defines_attr = any(x.startswith("self.") and x != target for x in d)
+            if used_outside or defines_attr:
+                sl.discard(k)
+                changed = True
+    keep = [body[k] for k in range(len(body)) if k not in sl and not (isinstance(body[k], ast.Expr) and isinstance(getattr(body[k], "value", None), ast.Constant))]
+    new = ast.FunctionDef(name="throw_sliced", args=fn.args, body=keep, decorator_list=[], returns=None, type_comment=None,
                           lineno=fn.lineno, col_offset=0, end_lineno=fn.end_lineno, end_col_offset=0)
     if hasattr(ast, "TypeAlias"):
         new.type_params = []
@@ -97,5 +152,7 @@ def throw_slices(ns):
     ast.fix_missing_locations(mod)
     loc = {}
     exec(compile(mod, path, "exec"), ns, loc)
-    cut = (fn.body[i_b].lineno, fn.body[i_tail].lineno - 1)
+    cut = (min(body[k].lineno for k in sl), max(body[k].end_lineno for k in sl))
+    loc["throw_sliced"].omitted_lines = sorted((body[k].lineno, body[k].end_lineno) for k in sl)
+    loc["throw_sliced"].fn_lines = (fn.lineno, fn.end_lineno)
     return loc["throw_sliced"], cut
